@@ -20,6 +20,7 @@ import shutil
 import subprocess
 import sys
 import tempfile
+import threading
 import types
 import zlib
 
@@ -38,6 +39,10 @@ RULE = ("cases = (a) module lists (the names ssh.connect packages plus extra and
         "(d) client._main start-up traces under random server-output segmentations and write grants; "
         "(e) assembler.py's real main(...) call bound against the real server.main signature for pairwise distinct "
         "option values, and the real server.py entered by the real assembler in a child interpreter; "
+        "(f) whole session starts (real connect -> transport -> real assembler -> main's arguments bound by the real "
+        "server.main signature) where every option takes every falsy value (False, 0, None, '', []) and all-falsy sets, "
+        "over the posix socket transport and the win32 pipe transport (real SocketRWShim threads, child stdin accepting "
+        "1 / 1000 / 4096 bytes per write, whole writes as control); "
         "non-trivial = a read crossed a segment boundary, an error branch was taken, or a trace was decided; "
         "distinct = distinct canonical model input")
 MANIFEST = dict(
@@ -272,6 +277,8 @@ def remote_run(stream, nasm, size_fn, bufsize, code_names, preloaded=()):
             except (ImportError, AttributeError, TypeError) as e:
                 end = 'done'
                 sink.append(('after-loop', type(e).__name__))
+            except Exception as e:  # noqa  (a corrupted assembler source can do anything)
+                end = 'crashed:' + type(e).__name__
     finally:
         sys.stderr, sys.stdout = old_err, old_out
         if blocker in sys.meta_path:
@@ -286,8 +293,25 @@ def remote_run(stream, nasm, size_fn, bufsize, code_names, preloaded=()):
 
 
 SERVER_STANDIN = (b"import sys\n"
-                  b"def main(*a):\n"
-                  b"    sys._getframe(1).f_globals['__c18_sink__'].append(a)\n")
+                  b"def main(*a, **k):\n"
+                  b"    sys._getframe(1).f_globals['__c18_sink__'].append((a, k))\n")
+
+
+def entered_with(main_args):
+    """What the real server.main would have been entered with: the arguments the stand-in main captured
+    from the real assembler's call, bound by the parameter list of the real `sshuttle.server.main`.
+    -> ('ok', [(param, value)]) | (error kind, text)"""
+    import inspect
+    import sshuttle.server as server
+    calls = [x for x in main_args if isinstance(x, tuple) and len(x) == 2 and isinstance(x[0], tuple)]
+    if not calls:
+        return 'notEntered', 'server.main was never called (%s)' % (main_args[:1],)
+    a, k = calls[0]
+    try:
+        b = inspect.signature(server.main).bind(*a, **k)
+    except TypeError as e:
+        return 'typeError', str(e)
+    return 'ok', list(b.arguments.items())
 
 
 # ---------------------------------------------------------------- generators
@@ -394,7 +418,7 @@ def val_tok(v):
         return 'i%d' % v
     if isinstance(v, str):
         return 's' + '.'.join(str(ord(c)) for c in v)
-    return '?' + type(v).__name__
+    return '?' + repr(v).replace(' ', '')
 
 
 def opts_tok(items):
@@ -571,22 +595,11 @@ def e2e_oracle(case, obs):
         out.append(('C18:assembler-consumed-wrong-amount', sum_of(case.get('junk', b'')), sum_of(r['rest'])))
     opts = case.get('options')
     if opts is not None and any(n == 'sshuttle.cmdline_options' for n, _d, _v in case['modules']):
-        want = [val_tok(v) for _k, v in opts]
-        have = [val_tok(v) for v in r['main_args'][0]] if r['main_args'] else None
-        if have != want:
-            out.append(('C18:options:values-differ', want, have))
+        kind, got = entered_with(r['main_args'])
+        bad = binding_problem(opts, kind, got)
+        if bad:
+            out.append(('C18:options:values-differ', [val_tok(v) for _k, v in opts], bad))
     return out
-
-
-def main_arg_keys():
-    """order in which assembler.py passes the options to server.main"""
-    import ast
-    with open(os.path.join(common.REPO, 'sshuttle', 'assembler.py'), 'rb') as f:
-        tree = ast.parse(f.read())
-    for n in ast.walk(tree):
-        if isinstance(n, ast.Call) and isinstance(n.func, ast.Name) and n.func.id == 'main':
-            return [a.attr for a in n.args]
-    return []
 
 
 def packaged_names():
@@ -997,8 +1010,17 @@ def connect_check(ctx, case, obs, log):
                                      dict(module=n, file=sum_of(d)), sum_of(got[n])))
             for n in exp_names:
                 vals = eval_module(got[n])
-                if vals != list(opts):
-                    problems.append(('C18:options:values-differ', opts_tok(opts), opts_tok(vals) if vals is not None else 'unparseable'))
+                if vals is None:
+                    problems.append(('C18:options:values-differ', opts_tok(opts), 'unparseable'))
+                    continue
+                try:
+                    kind, ent = enter_main(vals)
+                except Exception as e:  # noqa
+                    kind, ent = 'error', repr(e)
+                bad = binding_problem(opts, kind, ent)
+                if bad:
+                    problems.append(('C18:options:values-differ', opts_tok(opts),
+                                     '%s (uploaded module: %s)' % (bad, opts_tok(vals))))
     for key, exp, ob in problems:
         ctx.violation(key, case=dict(stream='connect', files={n: hexb(d) for n, d in case['files'].items()},
                                      options=[[k, v] for k, v in opts]),
@@ -1198,7 +1220,8 @@ def distinct_options(rng, keys):
 
 def enter_main(opts):
     """The argument expressions of assembler.py's real `main(...)` call, evaluated on an options
-    module holding `opts`, bound against the signature of the real `sshuttle.server.main`.
+    module holding `opts` (any list of (name, value): the client's options, or what the uploaded
+    module evaluates to), bound against the signature of the real `sshuttle.server.main`.
     -> ('ok', [(param, value)]) | ('typeError', msg) | ('attributeError', msg)"""
     import ast
     import inspect
@@ -1248,6 +1271,220 @@ def binding_case(ctx, opts, log):
                       expected='every parameter of the real server.main receives the client\'s option of the same name',
                       observed=bad, note='assembler.py\'s call expression bound against the real server.main signature',
                       kind='input')
+
+
+# ---------------------------------------------------------------- (f) whole session start: connect -> transport -> assembler -> main
+
+FALSY = [False, 0, None, '', []]
+
+
+def falsy_option_sets(rng, keys):
+    """every option takes every falsy value once (the others pairwise distinct and truthy or random), plus
+    all-falsy sets: a value that is dropped or defaulted anywhere on the way shows up"""
+    out = []
+    for k in keys:
+        for f in FALSY:
+            base = dict(distinct_options(rng, keys))
+            base[k] = f
+            out.append([(kk, base[kk]) for kk in keys])
+    for f in FALSY:
+        out.append([(k, f) for k in keys])
+    out.append([(k, rng.choice(FALSY)) for k in keys])
+    return out
+
+
+class PartialStdin:
+    """the child's unbuffered stdin pipe: a raw write() takes at most `limit` bytes and says how many"""
+
+    def __init__(self, limit):
+        self.limit = limit
+        self.buf = bytearray()
+
+    def write(self, b):
+        n = len(b) if self.limit is None else min(self.limit, len(b))
+        self.buf += bytes(b[:n])
+        return n
+
+    def flush(self):
+        pass
+
+    def close(self):
+        pass
+
+
+class BlockingStdout:
+    """the child's stdout: silent until released, then EOF"""
+
+    def __init__(self):
+        self.ev = threading.Event()
+
+    def read(self, n=-1):
+        self.ev.wait(30)
+        return b''
+
+    def close(self):
+        pass
+
+
+def session_paths(case, scratch):
+    real_dir = os.path.join(common.REPO, 'sshuttle')
+
+    class Paths(dict):
+        def get(self, name, default=None):
+            if name in case['files']:
+                if name not in self:
+                    self[name] = scratch.put(case['files'][name])
+                return self[name]
+            rel = name.split('.')[1:] if name != 'sshuttle' else ['__init__']
+            p = os.path.join(real_dir, *rel) + '.py'
+            return p if os.path.exists(p) else None
+    return Paths()
+
+
+def run_connect_win32(case, scratch, limit):
+    """The win32 branch of the real ssh.connect: pipes to the child plus the real helpers.SocketRWShim
+    threads.  Faked: sys.platform as ssh sees it, Popen, the file lookup, and the child's two pipe ends
+    (stdin accepts at most `limit` bytes per write).  Returns what reached the child's stdin."""
+    import socket as _socket
+    ssh = _mods()[0]
+    fi = FakeImportlib(session_paths(case, scratch))
+    child_in, child_out, done = PartialStdin(limit), BlockingStdout(), threading.Event()
+    popen_args = []
+
+    class Proc:
+        pid = 4242
+        stdin = child_in
+        stdout = child_out
+
+        def terminate(self):
+            done.set()
+
+        def poll(self):
+            return None
+
+    def popen(argv, **kw):
+        popen_args.append(list(argv))
+        return Proc()
+    saved = (ssh.importlib, ssh.ssubprocess, ssh.sys)
+    old_err = sys.stderr
+    ssh.importlib = fi
+    ssh.ssubprocess = types.SimpleNamespace(Popen=popen, PIPE=subprocess.PIPE)
+    ssh.sys = types.SimpleNamespace(platform='win32', executable=sys.executable, exit=sys.exit)
+    sys.stderr = io.StringIO()
+    obs = dict(error=None)
+    rfile = wfile = None
+    try:
+        try:
+            _p, rfile, wfile = ssh.connect(None, None, None, None, False, None, dict(case['options']))
+            wfile._sock.shutdown(_socket.SHUT_WR)      # end of upload: lets the pump drain and finish
+            if not done.wait(20):
+                obs['error'] = 'pump-did-not-finish'
+        except (UnicodeError, ImportError, SyntaxError, AttributeError, OSError) as e:
+            obs['error'] = type(e).__name__
+    finally:
+        child_out.ev.set()
+        ssh.importlib, ssh.ssubprocess, ssh.sys = saved
+        sys.stderr = old_err
+        for f in (rfile, wfile):
+            try:
+                if f is not None:
+                    f.close()
+            except OSError:
+                pass
+    obs.update(stream=bytes(child_in.buf), popen=popen_args, asked=[a for a in fi.asked if a != 'sshuttle.assembler'],
+               asked_all=list(fi.asked), paths=fi.paths)
+    return obs
+
+
+def run_session(case, scratch):
+    """case: dict(files, options, transport='posix'|'win32', limit, policy, bufsize).  Real connect, the
+    transport, then the real assembler on what arrived.  -> (obs, remote result or None)"""
+    if case['transport'] == 'win32':
+        obs = run_connect_win32(case, scratch, case.get('limit'))
+    else:
+        obs = run_connect(dict(files=case['files'], options=case['options']), scratch)
+        obs['stream'] = b''.join(d for k, d in obs['events'] if k == 'w')
+    if obs['error']:
+        return obs, None
+    m = re.search(r'stdin\.read\((\d+)\)', ' '.join(obs['popen'][0])) if obs['popen'] else None
+    obs['nasm'] = int(m.group(1)) if m else 0
+    import random as _random
+    r = remote_run(obs['stream'], obs['nasm'], size_policy(_random.Random(case.get('size_seed', 0)), case.get('policy', 'all')),
+                   case.get('bufsize', 8192), {'sshuttle.server', 'sshuttle.cmdline_options'})
+    return obs, r
+
+
+def session_problems(case, obs, r):
+    """the property on one whole session start -> [(key, expected, observed)]"""
+    opts = case['options']
+    if obs['error']:
+        return [('C18:session:connect-raised', 'upload written', obs['error'])]
+    disk = {n: file_bytes(obs['paths'].get(n)) for n in obs['asked_all'] if obs['paths'].get(n)}
+    out = []
+    if r['asm'] != disk.get('sshuttle.assembler'):
+        out.append(('C18:session:upload-corrupted', 'assembler source ' + sum_of(disk.get('sshuttle.assembler', b'')),
+                    sum_of(r['asm'])))
+        return out
+    want = packaged_names()
+    got = r['compiled']
+    if [n for n, _ in got] != want or r['end'] != 'done':
+        out.append(('C18:session:upload-corrupted', want, dict(names=[n for n, _ in got], end=r['end'])))
+        return out
+    for n, have in got:
+        if n in disk and have != disk[n]:
+            out.append(('C18:session:upload-corrupted', dict(module=n, file=sum_of(disk[n])), sum_of(have)))
+    if r['rest'] != b'':
+        out.append(('C18:session:upload-corrupted', 'nothing after the terminator', sum_of(r['rest'])))
+    kind, ent = entered_with(r['main_args'])
+    bad = binding_problem(opts, kind, ent)
+    if bad:
+        out.append(('C18:options:server-main-entered', ['%s=%s' % (k, val_tok(v)) for k, v in opts], bad))
+    return out
+
+
+def session_case_json(case):
+    return dict(case, stream='session', files={n: hexb(d) for n, d in case['files'].items()},
+                options=[[k, v] for k, v in case['options']])
+
+
+def session_case(ctx, case, scratch, log, seen):
+    obs, r = run_session(case, scratch)
+    ctx.count()
+    ctx.hist('session:%s%s' % (case['transport'], '' if case['transport'] == 'posix' else ':limit=%s' % case.get('limit')))
+    if r is not None and not r['end'].startswith(('crashed', 'asmBroken')):
+        log.add(boot_line(obs['nasm'], [], r, obs['stream']), boot_out(r))
+        log.nontrivial = True
+    for key, exp, ob in session_problems(case, obs, r):
+        if key in seen:
+            continue
+        seen.add(key)
+        ctx.violation(key, case=session_case_json(case), expected=exp, observed=ob,
+                      note='real ssh.connect -> %s transport -> real assembler.py -> arguments of main, bound by the real '
+                           'server.main parameter list' % case['transport'], kind='input')
+
+
+def session_cases(ctx, rng, scratch, names, okeys, logs):
+    seen = set()
+
+    def files_for(small):
+        files = {'sshuttle.server': SERVER_STANDIN}
+        for n in names:
+            if n in ('sshuttle.cmdline_options', 'sshuttle.server'):
+                continue
+            if small or rng.random() < 0.7:
+                files[n] = gen_source(rng, rng.choice(['small-py', 'mixed', 'crlf', 'utf8', 'one', 'bom', 'latin1-coding']), False)
+        return files       # names not listed are read from the working tree itself (the real sources)
+    lg = Log('session')
+    sets = falsy_option_sets(rng, okeys)
+    for i, opts in enumerate(sets):
+        tr = 'win32' if i % 6 == 5 else 'posix'
+        session_case(ctx, dict(files=files_for(True), options=opts, transport=tr, limit=rng.choice([None, 1000]),
+                               policy=rng.choice(POLICIES), bufsize=8192, size_seed=rng.randrange(1 << 30)), scratch, lg, seen)
+    for limit in [None, 1, 1000, 4096] * ctx.scale(1, 4):
+        for small in (True, False):
+            session_case(ctx, dict(files=files_for(small and limit == 1), options=distinct_options(rng, okeys), transport='win32',
+                                   limit=limit, policy='all', bufsize=8192, size_seed=0), scratch, lg, seen)
+    logs.append(lg)
 
 
 # ---------------------------------------------------------------- (ii) thorough: a real child interpreter
@@ -1502,7 +1739,7 @@ def run(ctx):
     logs = []
     try:
         names = packaged_names()
-        keys = main_arg_keys()
+        keys = client_option_keys()
         ctx.notes.append('packaged by ssh.connect: %s; options passed to server.main: %s' % (names, keys))
         # get_module_source alone, boundary contents first
         lg = Log('src')
@@ -1566,6 +1803,8 @@ def run(ctx):
             binding_case(ctx, distinct_options(rng, okeys), lg)
             ctx.count()
         logs.append(lg)
+        # (f) whole session starts: falsy option values, the win32 pipe transport with partial writes
+        session_cases(ctx, rng, scratch, names, okeys, logs)
         if ctx.thorough:
             for _ in range(12 * ctx.boost):
                 subprocess_case(ctx, rng.randrange(1 << 30), scratch, names, okeys)
@@ -1576,7 +1815,7 @@ def run(ctx):
     for lg in logs:
         ctx.hist(lg.kind)
         ctx.mark(lg.ins, lg.nontrivial)
-    for kind in ('e2e', 'connect', 'malformed', 'main', 'src', 'binding'):
+    for kind in ('e2e', 'connect', 'malformed', 'main', 'src', 'binding', 'session'):
         for lg in logs:
             if lg.kind == kind and lg.ins:
                 ctx.sample(dict(kind=kind, input=[l[:160] for l in lg.ins[:3]], real_code_output=[l[:160] for l in lg.outs[:3]]))
@@ -1610,6 +1849,12 @@ def replay(ctx, rep):
             lg = Log('main')
             main_check(ctx, case, ev, outcome, got, lg)
             return bool(ctx.violations), 'trace: %s' % lg.outs[0][:300]
+        if st == 'session':
+            c = dict(case, files={n: common.unhex(d) for n, d in case['files'].items()}, options=[tuple(o) for o in case['options']])
+            obs, r = run_session(c, scratch)
+            res = session_problems(c, obs, r)
+            return bool(res), '; '.join('%s: %s' % (k, str(o)[:160]) for k, _e, o in res) or \
+                'the modules compiled remotely equal the client files and server.main is entered with the client\'s values'
         if st == 'binding':
             opts = [tuple(o) for o in case['options']]
             kind, got = enter_main(opts)
